@@ -98,7 +98,7 @@ def _run_one(args):
             if rc is not None and rc < 0:
                 res["sig"] = -rc
         keep = job.get("keep", 1500)
-        err = _read_ends(os.path.join(d, ".stderr"), 6000)
+        err = _read_ends(os.path.join(d, ".stderr"), max(6000, keep))
         out = _read_ends(os.path.join(d, ".stdout"), keep)
         res["san"] = None if res["timeout"] else sanbuild.sanitizer_report(rc, err)
         res["err"] = err[:keep] if res["san"] else err[-keep:]
